@@ -211,6 +211,80 @@ func ruleCumulativeRetains(c *Ctx, ix *PkgIndex, rule string) {
 	}
 }
 
+// ruleCollectRebuilds: every collect method reports from its own state on every call — each path from its entry to its exit passes
+// the walk over the aggregator's values (in the method or in a helper it calls). The destination it is handed is scratch memory
+// that pipeline.produce pairs with instruments by position: a path that keeps what the destination already holds ("nothing
+// changed since last time") reports another stream's points as soon as the positions shift. Shared by C02.R12 and C08.R11.
+func ruleCollectRebuilds(c *Ctx, ix *PkgIndex, rule string) {
+	info := ix.Pkg.TypesInfo
+	for _, a := range aggSpecs {
+		fVals := aggField(ix, a.typ, "values")
+		if fVals == nil {
+			continue
+		}
+		walks := func(body ast.Node) bool {
+			hit := false
+			if body == nil {
+				return false
+			}
+			inspectNoLit(body, func(n ast.Node) bool {
+				if rs, ok := n.(*ast.RangeStmt); ok && isField(info, rs.X, fVals) {
+					hit = true
+				}
+				return true
+			})
+			return hit
+		}
+		for _, m := range []string{"delta", "cumulative"} {
+			fn := ix.Func("(*" + a.typ + ")." + m)
+			if fn == nil || fn.Body() == nil {
+				continue // promoted from the embedded aggregator: judged there
+			}
+			g := ix.FG(fn)
+			through := map[*GNode]bool{}
+			for _, x := range g.Nodes {
+				if x.N == nil {
+					continue
+				}
+				if rs, ok := x.N.(*ast.RangeStmt); ok && isField(info, rs.X, fVals) {
+					through[x] = true
+					continue
+				}
+				if e, ok := x.N.(ast.Expr); ok && isField(info, e, fVals) {
+					// the range expression is a vertex of its own in the flow graph
+					isRangeX := false
+					inspectNoLit(fn.Body(), func(n ast.Node) bool {
+						if rs, ok := n.(*ast.RangeStmt); ok && rs.X == e {
+							isRangeX = true
+						}
+						return true
+					})
+					if isRangeX {
+						through[x] = true
+						continue
+					}
+				}
+				inspectNoLit(x.N, func(n ast.Node) bool {
+					if call, ok := n.(*ast.CallExpr); ok {
+						if d := ix.declByObj(callee(info, call)); d != nil && d != fn && walks(d.Body()) {
+							through[x] = true
+						}
+					}
+					return true
+				})
+			}
+			key := "aggregate|(*" + a.typ + ")." + m + "|every call walks the aggregator's values"
+			if len(through) == 0 {
+				c.Violation(rule, key, at(ix.M, fn.Pos()), "the method does not walk values at all: it reports nothing of its own")
+				continue
+			}
+			seen, par := g.ReachFromEntry(func(y *GNode) bool { return through[y] }, nil)
+			c.Check(!seen[g.Exit], rule, key, at(ix.M, fn.Pos()), "no path from entry to exit avoids the walk over values",
+				"a path returns what the destination already held without walking values ("+g.pathLines(par, g.Exit)+"): the destination is scratch memory paired with instruments by position, so the stream can report another stream's points — a cumulative total that goes down, or values it never recorded")
+		}
+	}
+}
+
 func c02(c *Ctx) {
 	c.FollowDelegates = true
 	defer func() { c.FollowDelegates = false }()
@@ -508,6 +582,9 @@ func c02(c *Ctx) {
 			c.Check(n == 1, "R4", "aggregate|(*buckets).sum|total += value", at(ax.M, fn.Pos()), "histogram sum accumulates", "histogram sum no longer accumulates the recorded value")
 		}
 	}
+
+	c.Rule("R12", "E3 must-pass", "every collect method (delta and cumulative, all aggregators) walks its own values on every path from entry to exit: nothing is reported from what the scratch destination happened to hold", 8)
+	ruleCollectRebuilds(c, ax, "R12")
 
 	// R11 one measure per distinct aggregator (shared with C12.R5)
 	c.Rule("R11", "E3 dominance", "inserter.Instrument: no nil measure is appended, and a measure whose aggregator was already added for this instrument is not appended again (the set is keyed by the aggregator id): every Add reaches each aggregator once", 3)
